@@ -4,6 +4,8 @@ from . import helpers
 
 LEVEL = 'other'
 RULES = {
+    'C03.R8': 'the path polytope a pruning decision is taken on is the conjunction of the path conditions: label 1 contributes the predicate, label 0 its negation (shared with C09.R1)',
+    'C03.R7': 'the links, leaf flags and node set this property reads are what the arena mutators maintain as their effect contracts say (shared with C12.R2)',
     'C03.R6': helpers.RULE_TEXT,
     'C03.R1': 'every removal of a child outside impl Tree is control-dependent on an infeasibility verdict about that child '
               '(filtered by state Infeasible / queued under a fresh Infeasible state / false outcome of explore for the child just inserted), '
@@ -15,7 +17,7 @@ RULES = {
 }
 CONTROL_REV = '078b142'  # thorough tier: the rules must still report the defects found (and since fixed) on the original tree
 CONTROLS = [('C03.R5', 'AffTree::generic_composition_inplace#call:Tree::remove_child'), ('C03.R5', 'AffTree::infeasible_elimination#call:Tree::try_remove_child')]
-FLOORS = {'C03.R6': 5, 'C03.R1': 9, 'C03.R2': 12, 'C03.R3': 5, 'C03.R4': 2, 'C03.R5': 5}
+FLOORS = {'C03.R8': 2, 'C03.R7': 15, 'C03.R6': 5, 'C03.R1': 9, 'C03.R2': 12, 'C03.R3': 5, 'C03.R4': 2, 'C03.R5': 5}
 EXPLANATION = ('A path can disappear only after the LP back-end answered "infeasible" about exactly that path; '
                'decided structurally on every removal site, for all trees and inputs.')
 DOES_NOT_DECIDE = 'whether the LP answer is right (C10), tolerance effects'
@@ -154,6 +156,8 @@ def r4_skips(ctx):
 
 def run(ctx):
     helpers.run_for(ctx)
+    helpers.share_from(ctx, 'c09', 'C03.R8', ['PolyhedraGen::next#sign-table', 'AffTree::polyhedral_path_characterization#sign-table'])
+    helpers.share_arena_contracts(ctx, 'C03.R7')
     prune.check_removals(ctx, 'C03.R1')
     prune.check_infeasible_provenance(ctx, 'C03.R2')
     prune.check_edge_feasible_table(ctx, 'C03.R2')
